@@ -174,6 +174,8 @@ def _captured(o):
     return "not-captured"
 def kw(a, b=2, *rest, c=3, d=4, **more):
     return (a, b, rest, c, d, sorted(more.keys()))
+def kw12(p0, p1=1, p2=2, p3=3, p4=4, p5=5, p6=6, p7=7, p8=8, p9=9, *, k0=10, k1=11):
+    return p0 + p1 * 2 + p5 * 3 + p9 * 5 + k0 * 7 + k1 * 11
 def mkcounter(start):
     n = [start]
     def inc(step=1):
@@ -192,6 +194,7 @@ class Box:
         return self.v + add
 def workout(k):
     out = [kw(k, c=k + 1), kw(k, k, k, d=5, zz=1, yy=2), kw(a=k, b=k)]
+    out.append([kw12(k, p9=k, k1=2), kw12(p0=1, p5=k, k0=k), kw12(k, 1, 2, 3, 4, 5, 6, 7, p8=0, p9=k)])
     inc = mkcounter(k)
     out.append([inc(), inc(step=2)])
     out.append(list(gen3(k)))
